@@ -250,9 +250,55 @@ func init() {
 			}
 			t.Emit(map[string]any{"b": i, "i": 0, "op": "Filter", "chain": ch, "isNil": e == nil, "cls": classes(e), "out": res}, true, len(ch) > 1)
 		}
+		// the same chains as what the getters of an extension profile's component type return: component validation
+		// (ValidateSwComponent, and through Validate() the container's Add / ValidateSwComponents) must ignore exactly what
+		// the filter ignores, whichever sentinel flavour the extension used
+		b := len(doc.Chains)
+		okc := buildErr([]string{"nil"})
+		for fi := 0; fi < 5; fi++ {
+			for _, ch := range doc.Chains {
+				chains := [5][]string{{"nil"}, {"nil"}, {"nil"}, {"nil"}, {"nil"}}
+				chains[fi] = ch
+				xc := &xComp{}
+				for k := range xc.errs {
+					xc.errs[k] = okc
+				}
+				xc.errs[fi] = buildErr(ch)
+				var v1, v2, v3 error
+				pan := safely(func() {
+					v1 = psatoken.ValidateSwComponent(xc)
+					v2 = psatoken.ValidateSwComponents([]psatoken.ISwComponent{xc})
+					cont := &psatoken.SwComponents[*xComp]{}
+					v3 = cont.Add(xc)
+				})
+				t.Emit(map[string]any{"b": b, "i": 0, "op": "CompFilter", "field": fi + 1, "chain": ch, "isNil": xc.errs[fi] == nil,
+					"direct": mkRet(v1, absent()), "list": mkRet(v2, absent()), "add": mkRet(v3, absent()), "panicked": pan}, true, len(ch) > 1)
+				b++
+			}
+		}
 		t.Close(nil)
 	}
 }
+
+// xComp: a software-component type of an extension profile, written from scratch (it embeds nothing): every getter
+// returns the error the test put there (nil = a value), its Validate() is the exported ValidateSwComponent.
+type xComp struct{ errs [5]error }
+
+func (c *xComp) Validate() error                     { return psatoken.ValidateSwComponent(c) }
+func (c *xComp) GetMeasurementType() (string, error) { return "x", c.errs[0] }
+func (c *xComp) GetMeasurementValue() ([]byte, error) {
+	return []byte("01234567890123456789012345678901"), c.errs[1]
+}
+func (c *xComp) GetVersion() (string, error) { return "1", c.errs[2] }
+func (c *xComp) GetSignerID() ([]byte, error) {
+	return []byte("01234567890123456789012345678901"), c.errs[3]
+}
+func (c *xComp) GetMeasurementDesc() (string, error) { return "d", c.errs[4] }
+func (c *xComp) SetMeasurementType(v string) error   { return nil }
+func (c *xComp) SetMeasurementValue(v []byte) error  { return nil }
+func (c *xComp) SetVersion(v string) error           { return nil }
+func (c *xComp) SetSignerID(v []byte) error          { return nil }
+func (c *xComp) SetMeasurementDesc(v string) error   { return nil }
 
 func sameErr(a, b error) (ok bool) {
 	defer func() {
